@@ -20,7 +20,7 @@ ASSUMPTIONS = [
     "residuals compared at 1e-6 relative plus 1e3*eps*cond(X)*(|A||x|+|b|) plus 1e-6*|r0| (residuals below 1e-6 |r0| count as zero: iterations continued past a breakdown with tol near rounding level leave ~1e-9..1e-7 |r0|); matrices have cond(X) <= ~5 and |lam| in [0.5, 4]",
     "bulk payloads from numpy.default_rng(seed) with the seed a Hypothesis draw",
 ]
-SUBS = ["minimal", "minimal", "chain", "grade", "via_inv"]
+SUBS = ["minimal", "minimal", "chain", "grade", "via_inv", "zero_residual"]
 
 
 @st.composite
@@ -172,6 +172,20 @@ def check(case, out):
                 out.fail(sub, site, "not_minimal", f"col {j}: |r|={r:.6e} vs minimum {rmin:.6e} over K_{m} (dim {dimk}), |r0|={r0:.3e}, n={n}")
             if sub == "grade" and m >= grades[j] and r > sl + 1e-6 * r0:
                 out.fail(sub, site, "nonzero_at_grade", f"col {j}: |r|={r:.3e} with m={m} >= grade {grades[j]}")
+        return
+
+    if sub == "zero_residual":
+        # x0 already solves the system (or b has a zero column): the residual can not exceed that of the initial guess (0)
+        Xe = np.asarray(X0 if case["x0"] == "drawn" else np.zeros_like(B))
+        Be = A @ Xe
+        res = call(lambda: run(A, Be, Xe, m, tol, False))
+        if res is None:
+            return
+        x = res[0]
+        if not np.all(np.isfinite(x)):
+            out.fail(sub, site, "nonfinite", "GMRES started from the exact solution returned non-finite values")
+        elif np.linalg.norm(Be - A @ x) > 1e-10 * (1 + np.linalg.norm(Be)):
+            out.fail(sub, site, "worse_than_x0", f"residual {np.linalg.norm(Be - A @ x):.3e} from a zero initial residual")
         return
 
     if sub == "chain":
